@@ -79,6 +79,17 @@ theorem downgrade_on_hangup (fuel : Nat) (st : St) (c : Conn) (n : Net)
   simp only at this ⊢
   exact ⟨trivial, this⟩
 
+/-- **restart**: a run started by `rtr_start` on a socket that was used before (`rtr_stop`, no
+    `rtr_init`) enters CONNECTING by assignment, not through `rtr_change_socket_state`; its first
+    iteration clears the first-PDU flag, so the whole run is the same whatever value the earlier run
+    left in it — the first PDU of the first connection decides about a live downgrade like the first
+    PDU of every other connection (`downgrade_first_pdu`). -/
+theorem restart_forgets_first_pdu_flag (steps fuel : Nat) (st : St) (b : Bool) (hs : st.c.state ≠ .shutdown) :
+    fsmStart (steps + 1) fuel { st with c := { st.c with hasReceived := b } } = fsmStart (steps + 1) fuel st := by
+  have e1 := fsmStart_first steps fuel ({ st with c := { st.c with hasReceived := b } } : St) hs
+  rw [e1, fsmStart_first steps fuel st hs]
+  exact congrArg _ (stepConnecting_forgets (startState st) b)
+
 /-- **enforcement**: a PDU handed to the callers of `rtr_receive_pdu` (and so the only kind that
     can be applied) carries the version the socket speaks — its header is the one just read —
     unless it is an Error Report; it passed the size check. -/
